@@ -1038,7 +1038,16 @@ class Interp:
         return a == b
 
     def ev_IfExp(self, e, env):
-        c = self.truth(self.ev(e.test, env), e.test)
+        t = self.ev(e.test, env)
+        if isinstance(t, Pred) and t.kind not in ('true', 'false'):
+            # a conditional EXPRESSION on a symbolic condition: both alternatives are values, the result is their merge
+            from .extern import merge_cond
+            a, b = self.ev(e.body, env), self.ev(e.orelse, env)
+            try:
+                return merge_cond(t, a, b)
+            except Top:
+                pass
+        c = self.truth(t, e.test)
         return self.ev(e.body if c else e.orelse, env)
 
     def ev_GeneratorExp(self, e, env): return self.comp(e, env)
